@@ -13,6 +13,9 @@ import (
 	"github.com/tyler-sommer/stick/parse"
 )
 
+// maxRangeLength is the largest number of elements the ".." operator will produce.
+const maxRangeLength = 1 << 24
+
 // Type state represents the internal state of a template execution.
 //
 // state implements the exported Context interface.
@@ -692,9 +695,18 @@ func (s *state) evalExpr(exp parse.Expr) (v Value, e error) {
 			return CoerceNumber(left) < CoerceNumber(right), nil
 		case parse.OpBinaryRange:
 			l, r := CoerceNumber(left), CoerceNumber(right)
-			res := make([]float64, uint(math.Ceil(r-l))+1)
-			for i, k := 0, l; k <= r; i, k = i+1, k+1 {
-				res[i] = k
+			// Count down when the right bound is lower, as Twig does.
+			step := 1.0
+			if r < l {
+				step = -1
+			}
+			n := math.Floor(math.Abs(r-l)) + 1
+			if math.IsNaN(n) || n > maxRangeLength {
+				return nil, fmt.Errorf("range %v..%v is too large", l, r)
+			}
+			res := make([]float64, int(n))
+			for i := range res {
+				res[i] = l + float64(i)*step
 			}
 			return res, nil
 		case parse.OpBinaryBitwiseAnd:
